@@ -768,7 +768,7 @@ func main() {
 		os.Exit(3)
 	}
 	cs, list := load(os.Args[2])
-	res, deaths := isolate.Parent(os.Args[0], len(list), 4, os.Args[3]+".progress", []string{os.Args[2]}, 75*time.Second)
+	res, deaths := isolate.Parent(os.Args[0], len(list), 4, os.Args[3]+".progress", []string{os.Args[2]}, 45*time.Second)
 	f, err := os.Create(os.Args[3])
 	if err != nil {
 		panic(err)
